@@ -10,6 +10,9 @@ ASSUMPTIONS = [
     "durations are arbitrary integers >= 0 (z3 Int, unbounded above); non-integer durations outside the claim",
     "instance shapes bounded as stated in coverage.bounds; larger shapes outside the claim",
     "builtins max/min modelled as If-terms (first-wins), int() identity on integer terms",
+    "probe sub-spaces issue read-only start_time/min_start_time queries for ALL unscheduled operations (also those not ready yet) before every dispatch",
+    "in every state of the unfiltered sub-spaces a request on an in-range machine the operation is not eligible for is tried on a throw-away "
+    "replica: if it is accepted, the resulting schedule is judged like any other (ineligible machine = infeasible)",
     "'second' sub-spaces run the history on a dispatcher that already played an episode of every length and was reset()",
 ]
 STUBS = ["max", "min", "int (dispatcher module only)"]
@@ -36,6 +39,7 @@ def subspaces(tier):
     for f in (["none", "default_pair"] if tier == "quick" else filters):
         out += C.structure_subspaces(s3, 2, True, only_flexible=True, filter=f)
     out += C.structure_subspaces(s3 + [(2, 2)], 2, False, canonical=True, filter="default_pair", second=True)
+    out += C.structure_subspaces(s3 + [(2, 2), (2, 1, 1)], 2, False, filter="none", probe=True)
     out += C.structure_subspaces(D.shapes(2, 2), 2, True, only_flexible=True, filter="none", second=True)
     if tier == "thorough":
         s4only = [s for s in s4 if sum(s) == 4]
@@ -89,6 +93,28 @@ def harness(eng, sp):
             except Exception as ex:
                 eng.fail("C01/exception-in-available_operations", f"{type(ex).__name__}: {ex}")
                 return
+        if sp.get("probe"):
+            # read-only look-ahead queries (also for operations that are not ready yet) must not influence later dispatches
+            for o_ in spec.unscheduled_ops():
+                for mm in desc.machines[o_]:
+                    disp.start_time(D.op_by_id(inst, o_), mm)
+            disp.min_start_time(disp.unscheduled_operations())
+        if sp.get("filter", "none") == "none" and desc.n_machines > 1:
+            # a request naming a machine the operation is not eligible for must not be ACCEPTED (tried on a throw-away replica)
+            for o_ in spec.ready_ops():
+                for mm in range(desc.n_machines):
+                    if mm in desc.machines[o_]:
+                        continue
+                    rep = Dispatcher(inst)
+                    for ho, hm in spec.history:
+                        rep.dispatch(D.op_by_id(inst, ho), hm)
+                    try:
+                        rep.dispatch(D.op_by_id(inst, o_), mm)
+                    except D.E.Unsupported:
+                        raise
+                    except Exception:
+                        continue
+                    check_state(eng, desc, rep, spec, k + 1)
         op, m = D.choose_dispatch(eng, desc, spec)
         lop = D.op_by_id(inst, op)
         try:
